@@ -50,6 +50,37 @@ func runC02(c *core.Ctx) {
 			}
 		}
 	}
+	// one or two calls through a single entry point on an otherwise idle channel: nothing else will ever wake the sender,
+	// so whatever the call leaves behind (also the last chunk of a ReadFrom whose reader returns data together with io.EOF)
+	// stays where it is
+	li := 0
+	for rep := 0; rep < c.Scale(1, 10); rep++ {
+		for _, mode := range []mon.Mode{mon.Blocking, mon.NonBlock} {
+			for _, q := range []int{1, 2, 8, 64} {
+				for e := 0; e < len(wl.EntryName); e++ {
+					for _, size := range []int{1, 100, 1023, 1024} {
+						for per := 1; per <= 2; per++ {
+							li++
+							if !c.Mine(li) {
+								continue
+							}
+							id := fmt.Sprintf("lone/m%d/q%d/%s/s%d/n%d/r%d", mode, q, wl.EntryName[e], size, per, rep)
+							if !c.CaseQuiet(id) {
+								continue
+							}
+							cfg := wl.Cfg{Mode: mode, Queue: q, Writers: 1, PerWriter: per, Sizes: []int{size}, Entries: []int{e},
+								Procs: 2, PlanKind: "lone-call-on-idle-channel", NoCtxKinds: true}
+							runtime.GOMAXPROCS(cfg.Procs)
+							h := wl.Run(cfg, c.Rand("lone", li), 8*time.Second)
+							c.Count("lone_call_trials", 1)
+							judgeC02(c, id, h)
+							h.Rig.Dispose()
+						}
+					}
+				}
+			}
+		}
+	}
 	plans := wl.WindowPlans(20 * time.Millisecond)
 	total := c.Scale(6000, 100000)
 	stuck := 0
